@@ -19,10 +19,14 @@ RULE = ('grid: construct in {open parens, parens, brackets, nested CASE, '
         'them followed by further statements in the same input} x depth in '
         '{20,60,150,400} (thorough: + 1000, 2000) x sys.setrecursionlimit in '
         '{70,200,400,1000,5000} x entry point in {parse, parsestream, split, '
-        'format and 5 option sets}; one subprocess per cell. Oracle: outcome '
-        'is ok or SQLParseError; exit status 0; on ok the round-trip / tree '
-        'oracles hold (iterative walkers); afterwards, same process, default '
-        'limit, format/parse of ordinary input give the reference result. '
+        'format and 5 option sets}, + depths at 55/75/90 % of each limit, + '
+        'cells where the library is imported under recursion limit 100; one '
+        'subprocess per cell. Oracle: outcome is ok or SQLParseError; exit '
+        'status 0; on ok the round-trip / tree oracles hold (iterative '
+        'walkers) and str() of every returned statement works under the '
+        'limit the call succeeded with; afterwards, same process, default '
+        'limit, format/parse/split of ordinary input (incl. a 15-level '
+        'query) give the reference result. '
         'distinct_nontrivial = distinct (construct, depth, limit, entry, '
         'outcome) cells with depth >= 60')
 ASSUMPTIONS = [
@@ -55,18 +59,31 @@ def grid(tier):
             for lim in LIMITS:
                 for e in ENTRIES:
                     cells.append((c, d, lim, e))
+    # depths just below a recursion limit: the call may succeed where a
+    # later walk over the result needs more stack than the call did
+    for c in CONSTRUCTS:
+        for lim in ([70, 200, 400] if tier == 'quick'
+                    else [70, 200, 400, 1000]):
+            for frac in (0.55, 0.75, 0.9):
+                for e in ('parse', 'parsestream', 'format_reindent'):
+                    cells.append((c, int(lim * frac), lim, e))
+    # the library imported under a low recursion limit (restored before
+    # the first call)
+    for c in ('parens', 'case', 'calls+multi'):
+        for e in ENTRIES:
+            cells.append((c, 20, 1000, e, 100))
     return cells
 
 
 def cost(cell):
-    c, d, lim, e = cell
-    return d
+    return cell[1]
 
 
 def run_cell(cell, timeout):
-    c, d, lim, e = cell
+    c, d, lim, e = cell[:4]
     arg = json.dumps({'construct': c, 'depth': d, 'limit': lim, 'entry': e,
-                      'cpu': int(timeout)})
+                      'cpu': int(timeout),
+                      'import_limit': cell[4] if len(cell) > 4 else None})
     env = dict(os.environ)
     try:
         p = subprocess.run([sys.executable, '-B', '-m', 'vlib.c15_cell', arg],
@@ -85,8 +102,11 @@ def run_cell(cell, timeout):
 
 
 def judge(rec, cell, rc, res, err):
-    c, d, lim, e = cell
+    c, d, lim, e = cell[:4]
     case = {'construct': c, 'depth': d, 'limit': lim, 'entry': e}
+    if len(cell) > 4:
+        case['import_limit'] = cell[4]
+        rec.count('cells_imported_under_low_recursion_limit')
     rec.case()
     if rc == 'watchdog' or rc in (-24, -9):   # SIGXCPU / killed
         rec.count('cells_watchdog_or_cpu_limit_(inconclusive)')
@@ -153,5 +173,7 @@ def shard(ctx):
 
 def replay(ctx, kind, case):
     cell = (case['construct'], case['depth'], case['limit'], case['entry'])
+    if case.get('import_limit'):
+        cell = cell + (case['import_limit'],)
     rc, res, err = run_cell(cell, 400)
     judge(ctx.rec, cell, rc, res, err)
